@@ -13,7 +13,8 @@ impl Events {
 impl Poll {
     // blocks until a socket is readable or `timeout` has passed (None: no time limit)
     #[verifier::external_body]
-    pub fn poll(&mut self, events: &mut Events, timeout: Option<Duration>) -> (r: core::result::Result<(), IoError>) { unimplemented!() }
+    // (mio takes &mut self; the poller has no state a contract here depends on)
+    pub fn poll(&self, events: &mut Events, timeout: Option<Duration>) -> (r: core::result::Result<(), IoError>) { unimplemented!() }
 }
 impl Duration {
     #[verifier::external_body]
@@ -75,17 +76,17 @@ impl Zeroconf {
     // socket reads -> handle_response / handle_query (unit query): assumed to keep the queue acceptable
     #[verifier::external_body]
     pub fn handle_poller_events(&mut self, events: &Events)
-        ensures queue_ok(*old(self)) ==> queue_ok(*final(self)), final(self).ip_check_interval == old(self).ip_check_interval,
+        ensures queue_ok(*old(self)) ==> queue_ok(*final(self)), cover_kept(*old(self), *final(self)), final(self).ip_check_interval == old(self).ip_check_interval,
     { unimplemented!() }
     #[verifier::external_body]
     pub fn refresh_active_services(&mut self)
-        ensures queue_ok(*old(self)) ==> queue_ok(*final(self)), final(self).ip_check_interval == old(self).ip_check_interval, final(self).hostname_resolvers == old(self).hostname_resolvers,
+        ensures queue_ok(*old(self)) ==> queue_ok(*final(self)), cover_kept(*old(self), *final(self)), final(self).ip_check_interval == old(self).ip_check_interval, final(self).hostname_resolvers == old(self).hostname_resolvers,
     { unimplemented!() }
     #[verifier::external_body]
     pub fn notify_service_removal(&self, expired: HashMap<String, HashSet<String>>) { unimplemented!() }
     #[verifier::external_body]
     pub fn resolve_updated_instances(&mut self, updated_instances: &HashSet<String>)
-        ensures queue_ok(*old(self)) ==> queue_ok(*final(self)), final(self).ip_check_interval == old(self).ip_check_interval, final(self).hostname_resolvers == old(self).hostname_resolvers,
+        ensures queue_ok(*old(self)) ==> queue_ok(*final(self)), cover_kept(*old(self), *final(self)), final(self).ip_check_interval == old(self).ip_check_interval, final(self).hostname_resolvers == old(self).hostname_resolvers,
     { unimplemented!() }
 }
 // the clock as the run loop sees it: every read is some time (not frozen across iterations as in the handler units)
